@@ -129,7 +129,7 @@ def corr_gen(ctx, out):
     """(1) the four translated rule functions vs cogent3's own functions called on a bare stub object;
     (2) histories executed by the translated ParameterController methods vs the REAL ParameterController
     (assignments to leaf AND derived definitions, nested blocks left normally / by an exception,
-    update_intermediate_values())"""
+    update_intermediate_values(), make_calculator() + update_from_calculator() hand-backs, also inside blocks)"""
     from . import c07_ctl as ct
 
     rng = ctx.subrng("corr-gen")
@@ -157,6 +157,8 @@ def corr_gen(ctx, out):
             r = rng.random()
             if r < 0.12:
                 ops.append(["updall"])
+            elif r > 0.9:
+                ops.append(["handback", rng.randint(0, 5)])
             elif r < 0.24 and derived:
                 ops.append(["assignd", rng.choice(derived), rng.randint(0, 6)])
             ops.append(op)
